@@ -178,14 +178,14 @@ def enrich(sc, ce):
                     acc += L
             complete = e["firstfail"] == -1 and e["delivered"] == e["bodylen"]
             out.append({"op": "round", "X": [x + 1 for x in X], "vec": e["valid"], "disk": d, "zero": z, "payloadOk": pok, "wellFormed": "stop=" not in opts,
-                        "complete": bool(complete), "anyErr": e["firstfail"] >= 0, "outside": outside_same(cur, after, h, X),
+                        "complete": bool(complete), "anyErr": e["firstfail"] >= 0, "firederrTotal": e.get("firederr", 0), "outside": outside_same(cur, after, h, X),
                         "ranges": e["items"], "calls": e["calls"], "limit": e["limit"], "nranges": e["nranges"]})
             cur = after; valid = e["valid"]; round_i += 1
         elif op == "validate_data" and e.get("c") == 0:
             fin = rd("final")
             # the snapshot is taken after validate_data; use the file itself
             fin = open(sc.tpath, "rb").read()
-            out.append({"op": "finish", "valRet": e["ret"], "eqB": fin == B, "sized": sized})
+            out.append({"op": "finish", "valRet": e["ret"], "eqB": fin == B, "sized": sized, "must": bool(getattr(sc, "must", False))})
         elif op == "Killed":
             out.append({"op": "killed"})
         elif op in ("Crash", "Hang"):
